@@ -2038,7 +2038,10 @@ func (r *Raft) installSnapshot(rpc RPC, req *InstallSnapshotRequest) {
 
 	// Clear old logs if r.logs is a MonotonicLogStore. Otherwise compact the
 	// logs. In both cases, log any errors and continue.
-	if mlogs, ok := r.logs.(MonotonicLogStore); ok && mlogs.IsMonotonic() {
+	if mlogs, ok := r.logs.(MonotonicLogStore); ok && mlogs.IsMonotonic() && !continues {
+		// (A log that continues the snapshot leaves no gap behind it: it is
+		// compacted like any other, so that a late or repeated snapshot does
+		// not wipe entries above it that we have acknowledged.)
 		if err := r.removeOldLogs(); err != nil {
 			r.logger.Error("failed to reset logs", "error", err)
 		}
